@@ -8,6 +8,7 @@ EnabledB == { <<"c">>, <<"c","a">>, <<"c","ll">>, <<"c","p">>, <<"c","p","x">>, 
 \* slice O: the ordered list with a nested container in its entries
 EnabledO == { <<"ol">>, <<"ol","k">>, <<"ol","sub">>, <<"ol","sub","w">> }
 EnabledM == { <<"c">>, <<"c","a">>, <<"m">>, <<"m","k1">>, <<"m","k2">>, <<"m","v">> }
+MCWithGOC == TRUE
 \* everything
 EnabledAll == DOMAIN SK
 =============================================================================
